@@ -6,6 +6,8 @@ package drpcsignal
 import (
 	"sync"
 	"sync/atomic"
+
+	"storj.io/drpc/drpcdebug"
 )
 
 type signalStatus = uint32
@@ -41,8 +43,10 @@ func (s *Signal) Signal() chan struct{} {
 // callers.
 func (s *Signal) signalSlow() chan struct{} {
 	s.mu.Lock()
+	drpcdebug.Point("signal.signalSlow.locked")
 	if set := s.status; set&statusChannelCreated == 0 {
 		s.ch = make(chan struct{})
+		drpcdebug.Point("signal.signalSlow.beforeStore")
 		atomic.StoreUint32(&s.status, set|statusChannelCreated)
 	}
 	s.mu.Unlock()
@@ -62,6 +66,7 @@ func (s *Signal) Set(err error) (ok bool) {
 // callers.
 func (s *Signal) setSlow(err error) (ok bool) {
 	s.mu.Lock()
+	drpcdebug.Point("signal.setSlow.locked")
 	if status := s.status; status&statusErrorSet == 0 {
 		ok = true
 
@@ -70,11 +75,13 @@ func (s *Signal) setSlow(err error) (ok bool) {
 			s.ch = closed
 		}
 
+		drpcdebug.Point("signal.setSlow.beforeStore")
 		// we have to store the flags after we set the channel but before we
 		// close it, otherwise there are races where a caller can hit the
 		// atomic fast path and observe invalid values.
 		atomic.StoreUint32(&s.status, statusErrorSet|statusChannelCreated)
 
+		drpcdebug.Point("signal.setSlow.beforeClose")
 		if status&statusChannelCreated != 0 {
 			close(s.ch)
 		}
